@@ -66,8 +66,18 @@ def _d(h, cls, state):
     deserialization. For ASTs, this does not work.
     """
     op, args, length, variables, symbolic, annotations = state
+    # the pickled annotation tuple is the node's final one: it must not be merged with the children's relocatable
+    # annotations again, which would also reorder it and drop duplicates
     return cls.__new__(
-        cls, op, args, length=length, variables=variables, symbolic=symbolic, annotations=annotations, hash=h
+        cls,
+        op,
+        args,
+        length=length,
+        variables=variables,
+        symbolic=symbolic,
+        annotations=annotations,
+        hash=h,
+        skip_child_annotations=True,
     )
 
 
